@@ -11,6 +11,7 @@ import OmplModel.Props.C14D
 import OmplModel.Props.C14O
 import OmplModel.Props.C14W
 import OmplModel.Props.C14V
+import OmplModel.Props.C14VO
 /-!
 # C14 — Dubins curves: the reported path is a shortest candidate, reaches the goal, and `interpolate` drives it
 
